@@ -70,11 +70,30 @@ package snap
 // with an empty list); the rings themselves come from the unverified ring assembly. It may panic (ring assembly,
 // or a segment for which no centre is found); nothing else in it can.
 //@ macro keysIn(m, levels) = forall(k Int, hasKey(m, k) ==> inSlice(levels, k), trigger(hasKey(m, k)))
+//@ macro pxOf(p) = trunc(p[0] * 10000000000)
+//@ macro pyOf(p) = trunc(p[1] * 10000000000)
+//@ macro levelsOK(ix, levelMap) = forall(l Int, hasKey(levelMap, l) ==> 0 <= l && l <= ix.deepestLevel, trigger(hasKey(levelMap, l)))
+// what coverage of a vertex gives the descent: on every level the vertex's own pixel is stored and contains the vertex
+//@ lemma cover_in(ix S_pointindex_PointIndex, p A2_Real, l Int)
+//@   prelude arith morton
+//@   requires wfIndex(ix) && indexGrid(ix) && roundGrid(ix) && ptCovered(ix, p) && inGridF(ix, p) && 0 <= l && l <= ix.deepestLevel
+//@   use coord_bound(pxOf(p), ix.intExtent[0], ix.deepestRes, ix.deepestLevel) && coord_bound(pyOf(p), ix.intExtent[1], ix.deepestRes, ix.deepestLevel)
+//@   use pix_contains(pxOf(p), ix.intExtent[0], ix.deepestRes, ix.deepestLevel, l) && pix_contains(pyOf(p), ix.intExtent[1], ix.deepestRes, ix.deepestLevel, l)
+//@   use div_bound(coordX(ix, p), ix.deepestLevel, l) && div_bound(coordY(ix, p), ix.deepestLevel, l)
+//@   use roundtrip(kx(ix, coordX(ix, p), l), kx(ix, coordY(ix, p), l))
+//@   ensures storedQ(ix, l, zAt(ix, p, l)) && ptIn(p, quadOf(ix, l, zAt(ix, p, l)).intExtent) && ptIn(p, ix.intExtent)
 //@ func addPointsAndSnap
-//@   prelude arith lists
+//@   prelude arith lists morton
+//@   opaquemul
+//@   opaquediv
 //@   requires !isNil(ix.hitOnce) && !isNil(ix.hitMultiple) && forall(a, 0, len(polygon), len(polygon[a]) > 0 ==> indexInv(ix))
 //@   requires forall(a, 0, len(polygon), forall(b, 0, len(polygon[a]), segCoordOK(polygon[a][b])))
+// for the "no points found" guard (C06): a well-formed, round index in which every vertex of the polygon is covered on
+// every level (what InsertPolygon establishes), and no requested level deeper than the index
+//@   requires[C06] wfIndex(ix) && indexGrid(ix) && roundGrid(ix) && allInGrid(ix, polygon) && allCovered(ix, polygon)
+//@   requires[C06] forall(i, 0, len(levels), levels[i] <= ix.deepestLevel)
 //@   maypanic
+//@   nopanic[C06] cleanupNewVertices
 //@   modifies ix.hitOnce
 //@   modifies ix.hitMultiple
 //@   ensures[C05,C08] !isNil(result) && keysIn(result, levels)
@@ -83,17 +102,23 @@ package snap
 //@     invariant 0 - 1 <= r && r < len(polygon)
 //@     invariant !isNil(ix.hitOnce) && !isNil(ix.hitMultiple) && forall(a, 0, len(polygon), len(polygon[a]) > 0 ==> indexInv(ix))
 //@     invariant !isNil(levelMap) && keysIn(levelMap, levels) && !isNil(newOuters) && !isNil(newInners) && !isNil(newPointsAndLines) && keysIn(newPointsAndLines, levels)
+//@     invariant[C06] levelsOK(ix, levelMap)
 //@     decreases len(polygon) - r
 //@   loop level as it1
 //@     invariant !isNil(newRing)
 //@   loop vertex as v
 //@     invariant 0 - 1 <= v && v < len(ring) && ringLen == len(ring)
 //@     invariant (len(ring) > 0 ==> indexInv(ix)) && !isNil(ix.hitOnce) && !isNil(ix.hitMultiple) && !isNil(newRing) && !isNil(levelMap)
+//@     invariant[C06] len(levelMap) > 0 && levelsOK(ix, levelMap)
+//@     invariant[C06] forall(i Int, 0 <= i && i < len(ring) ==> ptCovered(ix, ring[i]) && inGridF(ix, ring[i]), trigger(ring[i]))
+//@     loopuse v + 1 < len(ring) ==> forall(l Int, cover_in(ix, ring[v + 1], l), trigger(hasKey(levelMap, l)))
 //@     decreases len(ring) - v
 //@   loop level#2 as it2
 //@     invariant !isNil(newRing)
+//@     invariant[C06] forall(l Int, hasKey(levelMap, l) ==> hasKey(newVertices, l) && len(newVertices[l]) > 0, trigger(hasKey(levelMap, l)))
 //@   loop level#3 as it3
 //@     invariant !isNil(levelMap) && keysIn(levelMap, levels) && !isNil(newOuters) && !isNil(newInners) && !isNil(newPointsAndLines) && keysIn(newPointsAndLines, levels)
+//@     invariant[C06] levelsOK(ix, levelMap)
 //@   loop l as it4
 //@     invariant !isNil(newPolygons) && !isNil(newOuters) && !isNil(newInners) && keysIn(newPolygons, levels)
 //@     invariant forall(k Int, hasKey(newPolygons, k) ==> len(newPolygons[k]) > 0, trigger(hasKey(newPolygons, k)))
